@@ -659,13 +659,14 @@ func (m *Memberlist) Leave(timeout time.Duration) error {
 
 		m.nodeLock.Lock()
 		state, ok := m.nodeMap[m.config.Name]
-		incarnation := state.Incarnation
-		name := state.Name
-		m.nodeLock.Unlock()
 		if !ok {
+			m.nodeLock.Unlock()
 			m.logger.Printf("[WARN] memberlist: Leave but we're not in the node map.")
 			return nil
 		}
+		incarnation := state.Incarnation
+		name := state.Name
+		m.nodeLock.Unlock()
 
 		// This dead message is special, because Node and From are the
 		// same. This helps other nodes figure out that a node left
